@@ -7,7 +7,7 @@ from hypothesis import strategies as st
 
 from .. import gen, glrcore as G, pgl, trees as T
 from ..cfg import CFG
-from ..core import SubCheck
+from ..core import SubCheck, stable_hash
 from ..ref_chart import Chart, Lexicon, TooMany
 from .c02 import nullable_goto_cycle, sentences
 
@@ -24,6 +24,19 @@ ASSUMPTIONS = [
 ]
 
 BIG = 300
+_PINS = None
+
+
+def pins():
+    global _PINS
+    if _PINS is None:
+        import json, os
+        from .. import VERIF_DIR
+        path = os.path.join(VERIF_DIR, "regress", "C03", "D2-pins.json")
+        data = json.load(open(path)) if os.path.exists(path) else {"pins": {}, "clean": []}
+        _PINS = data["pins"]
+        _PINS["__clean__"] = set(data.get("clean", []))
+    return _PINS
 
 
 def canon_or_exc(getter):
@@ -143,6 +156,17 @@ def run_case(case, ctx):
                 ctx.fail("nonlazy-index-beyond-len", index=i, len=n, error=repr(e), **info)
         # ---- (c) distinctness and agreement with the reference ------------
         if dups:
+            # Known finding D2.  For the pinned corpus (classics + the quick
+            # tiny-grammar enumeration) the exact manifestation is recorded, so
+            # a *different* duplicate-packing defect is still reported.
+            pin = pins().get(stable_hash([case["g"], case["table"], text]))
+            if stable_hash([case["g"], case["table"], case["max_len"]]) in pins()["__clean__"]:
+                ctx.fail("duplicate-packing-on-grammar-recorded-as-clean", len=n, **info)
+            if pin is not None:
+                ctx.label("duplicate-packing compared with recorded manifestation")
+                now = [str(n), len(set(lazy)) if small else -1]
+                if now != pin:
+                    ctx.fail("duplicate-packing-differs-from-recorded-finding", recorded=pin, now=now, **info)
             ctx.known("D2", "duplicate-alternative-in-packed-node", len=n, **info)
             ctx.label("duplicate-packing (D2)")
         elif small and not cyclic:
@@ -245,8 +269,19 @@ def enum_tiny(tier):
     return it()
 
 
+def enum_epsilon(tier):
+    stride = 1
+
+    def it():
+        for i, g in enumerate(gen.epsilon_family()):
+            yield {"g": g, "table": "LALR" if i % 2 else "SLR", "lex": "L0",
+                   "fill": [""], "max_len": 4, "probe": i}
+    return it()
+
+
 SUBCHECKS = [
     SubCheck("classics", run_case, enumerate=enum_classics),
+    SubCheck("epsilon-family-exhaustive", run_case, enumerate=enum_epsilon),
     SubCheck("tiny-exhaustive", run_case, enumerate=enum_tiny),
     SubCheck("random-L0", run_case, strategy=strat_l0, examples={"quick": 4800, "thorough": 48000}),
     SubCheck("random-ambiguous-long", run_case, strategy=strat_ambiguous,
